@@ -735,3 +735,46 @@ Theorem C08_source_track_loop : forall l : list (string * Model.Formats.line),
   /\ Model.Formats.until_track (map snd l)
      = firstn (length (Model.Formats.until_track (map snd l))) (map snd l).
 Proof. exact Proofs.FnFormatsTrack.source_track_loop. Qed.
+
+(* ---- source tie: rangelabel.to_label, the WHOLE function (the f-string "{row.chromosome}:{row.start + 1}-{row.end}"),
+   translated from the Python source on every run (Gen/FnFormatsToLabel.v fn_to_label): it is the model's to_label, and
+   the model's write_text writes exactly the generated label of every row *)
+From CNV Require Gen.FnFormatsToLabel Proofs.FnFormatsToLabel.
+
+Theorem C08_source_to_label : forall (c : string) (s e : Z),
+  Gen.FnFormatsToLabel.fn_to_label c s e = to_label (c, s, e).
+Proof. exact Proofs.FnFormatsToLabel.source_to_label. Qed.
+
+Theorem C08_source_write_text : forall t : list row,
+  write_text t = map (fun r => let '(c, s, e) := fst r in [Gen.FnFormatsToLabel.fn_to_label c s e]) t.
+Proof. exact Proofs.FnFormatsToLabel.source_write_text. Qed.
+
+(* ---- loop tie: ONE ITERATION of seg.parse_seg's header scan "for line in handle:" (count the tabs; none: continue; 5 / 4:
+   the six / five column names and break; else raise), translated from the Python source on every run
+   (Gen/FnFormatsSegHeader.v fn_seg_header_step).  The step iterated over the lines, the two raises read as None, is the
+   model's seg_find_header *)
+From CNV Require Gen.FnFormatsSegHeader Proofs.FnFormatsSegHeader.
+
+Theorem C08_source_seg_header : forall (cols : list string) (ls : list Model.Formats.line),
+  Proofs.FnFormatsSegHeader.gen_find_header cols ls = seg_find_header ls.
+Proof. exact Proofs.FnFormatsSegHeader.source_seg_header. Qed.
+
+Theorem C08_source_seg_header_step : forall cols : list string,
+  Gen.FnFormatsSegHeader.fn_seg_header_step cols 0 = (cols, false) /\
+  Gen.FnFormatsSegHeader.fn_seg_header_step cols 5 = (["sample_id"; "chromosome"; "start"; "end"; "probes"; "log2"]%string, true) /\
+  Gen.FnFormatsSegHeader.fn_seg_header_step cols 4 = (["sample_id"; "chromosome"; "start"; "end"; "log2"]%string, true).
+Proof. exact Proofs.FnFormatsSegHeader.source_seg_header_step. Qed.
+
+(* ---- source tie: gff.read_gff's keep_type filter ("if keep_type: ok_type = dframe['type'] == keep_type; dframe =
+   dframe[ok_type]") read per row, translated from the Python source on every run (Gen/FnFormatsGffKeep.v fn_gff_keep): it is
+   the model's gff_keep, the filter of read_gff_full *)
+From CNV Require Gen.FnFormatsGffKeep Proofs.FnFormatsGffKeep.
+
+Theorem C08_source_gff_keep : forall (keep_type : option string) (r : row),
+  Gen.FnFormatsGffKeep.fn_gff_keep (Proofs.FnFormatsGffKeep.keep_text keep_type) (gff_type r) = gff_keep keep_type r.
+Proof. exact Proofs.FnFormatsGffKeep.source_gff_keep. Qed.
+
+Theorem C08_source_gff_filter : forall (keep_type : option string) (t : list row),
+  filter (gff_keep keep_type) t
+  = filter (fun r => Gen.FnFormatsGffKeep.fn_gff_keep (Proofs.FnFormatsGffKeep.keep_text keep_type) (gff_type r)) t.
+Proof. exact Proofs.FnFormatsGffKeep.source_gff_filter. Qed.
